@@ -157,9 +157,12 @@ func (dm *DMap) lookupOnOwners(hkey uint64, key string) []*version {
 	}
 
 	var versions []*version
-	versions = append(versions, dm.lookupOnThisNode(hkey, key))
 
-	// Run a query on the previous owners.
+	// Run a query on the previous owners first and look at the local fragment afterwards.
+	// A previous owner drops a table only after this member has merged it: a key that is
+	// being moved is either still on the previous owner when it is asked, or it is already
+	// here when the local fragment is read. The other way round the key is missed if its
+	// table arrives between the two lookups.
 	// Traverse in reverse order. Except from the latest host, this one.
 	for i := len(owners) - 2; i >= 0; i-- {
 		owner := owners[i]
@@ -175,6 +178,7 @@ func (dm *DMap) lookupOnOwners(hkey uint64, key string) []*version {
 		// by the balancer.
 		versions = append(versions, v)
 	}
+	versions = append(versions, dm.lookupOnThisNode(hkey, key))
 	return versions
 }
 
